@@ -458,6 +458,9 @@ const (
 	PlSibling   IgPlacement = "before-next-sibling"
 	PlOtherFile IgPlacement = "other-file-level"
 	PlField     IgPlacement = "before-field" // own line before the parameter / result / struct field that carries the diagnostic, inside a multi-line list
+	// Placements with NO following node (not in IgPlacements; C07 judges them with a weaker oracle, see there):
+	PlDangling IgPlacement = "dangling-end-of-body" // own line just before the closing brace of the function body containing the diagnostic
+	PlEOF      IgPlacement = "dangling-end-of-file" // own line after the last declaration of the diagnostic's file
 )
 
 var IgPlacements = []IgPlacement{PlFile, PlFileDetached, PlDecl, PlStmt, PlOuterStmt, PlTrail, PlPrevTrail, PlNextTrail, PlSibling, PlOtherFile, PlField}
@@ -639,6 +642,8 @@ type IgVariant struct {
 	From, To int
 	Desc     string
 	insertedN int // number of inserted lines (default 1)
+	// DeclFrom..DeclTo (variant lines): the declaration a dangling comment sits in (PlDangling only)
+	DeclFrom, DeclTo int
 }
 
 // MakeVariant inserts comment per placement relative to the diagnostic at (file fi, base line).
@@ -751,6 +756,17 @@ func MakeVariant(b *IgBase, fidx, line int, pl IgPlacement, comment string) (*Ig
 			return nil, nil, false
 		}
 		v.From, v.To = line+1, line+1
+	case PlDangling:
+		s, e := info.DeclSpan(line)
+		if s == 0 || e <= s || strings.TrimSpace(f.Lines[e-1].Text) != "}" || !strings.HasPrefix(f.Lines[s-1].Text, "func ") {
+			return nil, nil, false
+		}
+		insertBefore(fidx, e, "\t")
+		v.From, v.To = 0, 0
+		v.DeclFrom, v.DeclTo = s, e+1
+	case PlEOF:
+		insertBefore(fidx, len(f.Lines)+1, "")
+		v.From, v.To = 0, 0
 	case PlField:
 		s, e := info.FieldSpan(line)
 		if s == 0 {
